@@ -208,21 +208,22 @@ def run_history(events, active=False):
                 coq_events.append("EvClosing")
             elif kind == "closed":
                 if not ses.rig.conn.connected:
-                    coq_events.append("EvClosed")
-                    outs.append(ses.new_outputs())
-                    states.append(ses.state())
-                    continue
+                    continue            # there is no connection that could end
                 ses.rig.conn.peer_close()
                 coq_events.append("EvClosed")
             elif kind == "ctrl":
                 _, stype, system, status = ev
                 system = sys_map.get(system, system)
+                if isinstance(system, str) or not ses.rig.conn.connected:
+                    continue            # refers to a request of ours that was never opened in this history / nothing arrives without a connection
                 ses.rig.conn.feed(frame(stype, system, function=status))
                 ses.settle()
                 coq_events.append(f"(EvCtrl {L.z(stype)} {L.z(system)} {L.z(status)})")
             elif kind == "data":
                 _, system, s, f, w, wellformed = ev
                 system = sys_map.get(system, system)
+                if isinstance(system, str) or not ses.rig.conn.connected:
+                    continue
                 body = b"" if wellformed else b"\x01"
                 ses.rig.conn.feed(frame(0, system, stream=s, function=f, w=w, body=body, session=0))
                 ses.settle()
@@ -301,9 +302,23 @@ def add_case(lits, kind, hist, active=False):
         WEDGED.append({"kind": kind, "history": hist, "active": active, "blocked_in": str(exc)})
 
 
+EVENTS = [("ctrl", 1, 8, 0), ("ctrl", 3, 9, 0), ("ctrl", 5, 10, 0), ("ctrl", 2, 11, 0), ("ctrl", 2, "t0", 0), ("ctrl", 4, "t0", 1), ("ctrl", 7, "t0", 0),
+          ("data", 12, 1, 1, True, True), ("data", "t0", 1, 2, False, True), ("open", 1, "t0"), ("open", 3, "t0"), ("giveup", "t0"), ("closing",), ("closed",), ("connected",)]
+
+
+def exhaustive(depth):
+    import itertools
+    for pre in ([("connected",)], [("connected",), ("ctrl", 1, 7, 0)]):
+        for seq in itertools.product(EVENTS, repeat=depth):
+            yield pre + list(seq)
+
+
 def gen_cases(rnd, tier):
     lits = []
     del WEDGED[:]
+    for k, h in enumerate(exhaustive(3 if tier == "thorough" else 2)):
+        if tier == "thorough" or k % 2 == 0:
+            add_case(lits, "exhaustive", h, active=(k % 5 == 0))
     n = 120 if tier == "quick" else 1000
     for _ in range(n):
         active = rnd.random() < 0.4
